@@ -19,7 +19,22 @@ def genC01Cases (tier : String) (seed : Nat) : Array Case := Id.run do
     let cfg : GenCfg := { suffixes := i % 3 = 0, maxDepth := if i % 5 = 0 then 4 else 3 }
     let (s, rng') := genC01 cfg rng
     rng := rng'
-    if i % 12 = 11 then
+    if i % 12 = 5 then
+      -- the operators written inside the components must not leak anywhere else: two plain
+      -- nested statements follow, which are joined by the implicit conjunction whatever
+      -- operators the components contain
+      let g : GS Stmt := do
+        let sym ← liftG (pick (Sym.nestables.filter (fun (x : Sym) => !x.isProperty)))
+        let a ← genFlatParts (← liftG (range 1 2)) 0
+        let b ← genFlatParts (← liftG (range 1 2)) 0
+        pure (Stmt.mk (s.parts ++ [Part.nested { sym := sym } (Stmt.mk a), Part.nested { sym := sym } (Stmt.mk b)]))
+      let ((s2, _), rng'') := (g.run 0) rng
+      rng := rng''
+      if supported s2 then
+        out := out.push (parseCase s!"c01-n{i}" "components+two-nested" s2)
+      else
+        out := out.push (parseCase s!"c01-r{i}" (if cfg.suffixes then "rand+sfx" else "rand") s)
+    else if i % 12 = 11 then
       -- parenthesised phrases inside combinations: open known finding when they fail
       let (s', rng'') := decorateStmtCombos s rng
       rng := rng''
